@@ -95,6 +95,23 @@ func stripConv(v ssa.Value) ssa.Value {
 						}
 					}
 				}
+				// a variable kept in a cell (named result of a function with defer): a load that follows a store in
+				// the same block, nothing in between writing the cell, is the stored value
+				if a, ok := x.X.(*ssa.Alloc); ok && x.Block() != nil && plainCell(a) {
+					var fwd ssa.Value
+					for _, in := range x.Block().Instrs {
+						if in == ssa.Instruction(x) {
+							break
+						}
+						if st, isSt := in.(*ssa.Store); isSt && st.Addr == ssa.Value(a) && !isSelfStore(st) {
+							fwd = st.Val
+						}
+					}
+					if fwd != nil {
+						v = fwd
+						continue
+					}
+				}
 			}
 			return v
 		default:
@@ -421,6 +438,13 @@ func normAtomic(n string) string {
 		switch op {
 		case "Load", "Store", "Add", "Swap", "CompareAndSwap", "And", "Or":
 			return "sync/atomic." + op + typ
+		}
+	case "Bool":
+		// a flag kept in an atomic.Bool is the 0/1 word it replaces: Load ↔ LoadUint32(&x) == 1,
+		// CompareAndSwap(false, true) ↔ CompareAndSwapUint32(&x, 0, 1)
+		switch op {
+		case "Load", "Store", "Swap", "CompareAndSwap":
+			return "sync/atomic." + op + "Uint32"
 		}
 	}
 	return n
@@ -1062,6 +1086,31 @@ func (a Atom) String() string {
 	return "!" + Expr(a.X)
 }
 
+// cellFwd: a load of a plain local cell that follows a store to it in the same block is the stored value.
+func cellFwd(v ssa.Value) ssa.Value {
+	x, ok := v.(*ssa.UnOp)
+	if !ok || x.Op != token.MUL || x.Block() == nil {
+		return v
+	}
+	a, ok := x.X.(*ssa.Alloc)
+	if !ok || !plainCell(a) {
+		return v
+	}
+	var fwd ssa.Value
+	for _, in := range x.Block().Instrs {
+		if in == ssa.Instruction(x) {
+			break
+		}
+		if st, isSt := in.(*ssa.Store); isSt && st.Addr == ssa.Value(a) && !isSelfStore(st) {
+			fwd = st.Val
+		}
+	}
+	if fwd != nil {
+		return fwd
+	}
+	return v
+}
+
 // NormCond normalises (cond, polarity) to an atom.
 func NormCond(v ssa.Value, pol bool) Atom {
 	for {
@@ -1103,7 +1152,7 @@ func NormCond(v ssa.Value, pol bool) Atom {
 		case token.GEQ:
 			op, a, b = token.LEQ, b, a
 		}
-		return Atom{Kind: "cmp", Op: op, X: a, Y: b, Pol: true}
+		return Atom{Kind: "cmp", Op: op, X: cellFwd(a), Y: cellFwd(b), Pol: true}
 	case *ssa.Call:
 		return Atom{Kind: "call", Call: x, Pol: pol}
 	case *ssa.Extract:
